@@ -89,7 +89,33 @@ STATUS_KANI = [
       reproducer="\"99\".parse::<wtransport_proto::ids::StatusCode>()"),
 ]
 
-HOOK_COMMITS = ["940a808"]
+FRAME_KANI = [
+    K("c_framekind_is_id_exercise", "FrameKind::is_id_exercise == RFC 9114 GREASE predicate 0x1f*N+0x21, all 2^62 ids", [P + "frame.rs::FrameKind::is_id_exercise"]),
+    K("c_framekind_parse", "FrameKind::parse: four registered types, GREASE kept with id, else unknown (exact arithmetic)", [P + "frame.rs::FrameKind::parse"]),
+    K("c_framekind_id", "FrameKind::id is the registry value whose parse is the kind", [P + "frame.rs::FrameKind::id"]),
+    K("p_framekind_id_parse_inverse", "parse(id(k)) == k; registry constants 0/1/4/0x41; parse limit 4096", [P + "frame.rs::frame_kind_ids::*"]),
+    K("p_grease_facts", "facts assumed by the uninterpreted GREASE oracle hold for the RFC predicate", []),
+]
+
+FRAME_READ_20 = K("p_frame_read_matches_reference_20",
+                  "every byte string <= 20 bytes: Frame::read and read_from_buffer == reference parser (value / need-more / error class, exact consumption, unknown frames consumed whole, offset moves only on success)",
+                  [P + "frame.rs::Frame::read", P + "frame.rs::Frame::read_from_buffer", P + "frame.rs::Frame::{new,new_webtransport,kind,payload,session_id}"],
+                  reproducer="wtransport_proto::frame::Frame::read(&mut &[0x07u8, 0x01, 0x00][..]) then inspect the reader: only 1 byte consumed")
+
+QPACK_INT_KANI = [
+    K("p_qpack_decode_integer_n%d" % n,
+      "every byte string <= 12 octets: decode_integer::<%d> == RFC 7541 5.1 (value, consumption, UnexpectedFin, IntegerOverflow iff > usize::MAX or > 10 continuation octets); no shift/add overflow" % n,
+      [P + "qpack.rs::Decoder::decode_integer"],
+      reproducer="wtransport_proto::qpack::Decoder::decode([0x00, 0x00, 0xff, 0xff,0xff,0xff,0xff,0xff,0xff,0xff,0xff,0xff,0xff,0x01]) (debug build: panics 'attempt to shift left with overflow')")
+    for n in (3, 4, 6, 7, 8)
+] + [
+    K("p_qpack_encode_integer_n%d" % n,
+      "all usize values, all flags, all capacities: encode_integer::<%d> output == RFC 7541 5.1; decode(encode(v)) == v with exact consumption" % n,
+      [P + "qpack.rs::Encoder::encode_integer", P + "qpack.rs::Decoder::decode_integer"])
+    for n in (3, 4, 6, 7, 8)
+]
+
+HOOK_COMMITS = ["940a808", "d1760cd"]
 
 PROPS = {
     "C17": {
@@ -100,6 +126,20 @@ PROPS = {
         "kani": IDS_KANI,
         "verus": [V("ids", pair=("proto", "p_qstream_session_inverse_real"))],
         "not_decided": ["Driver::accept_uni/accept_bi/receive_datagram filtering of foreign sessions and the BufferedStreamRejected stop code (async over quinn)"],
+    },
+    "C11": {
+        "level": "proof",
+        "claim": "wip",
+        "note": "wip",
+        "kani": QPACK_INT_KANI[:5],
+        "verus": [],
+    },
+    "C13": {
+        "level": "proof",
+        "claim": "wip",
+        "note": "wip",
+        "kani": FRAME_KANI + [FRAME_READ_20],
+        "verus": [],
     },
 }
 
